@@ -6,6 +6,7 @@ import shutil
 
 import common
 import convlib
+import indexlib
 import vcfgen
 import vczspec
 
@@ -67,13 +68,22 @@ def ranges_intersect(ranges):
     return False
 
 
-def attempt(ctx, spec, pieces, work, tag, label, must_reject, target=None):
+def attempt(ctx, spec, pieces, work, tag, label, must_reject, target=None, old_index=None):
     """explode (distributed API, so we can feed the partitions to the model) + encode"""
     from bio2zarr import vcf2zarr
     from bio2zarr.vcf2zarr import icf as icf_mod
     rng = ctx.rng
     paths = [vcfgen.materialise(spec, pathlib.Path(work) / f"{tag}_{i}", "vcf.gz+tbi", records=recs, block_size=120)
              for i, recs in enumerate(pieces)]
+    # index flavour: some inputs carry an old-style tabix index without per-contig record counts
+    stripped = []
+    if old_index is None:
+        old_index = rng.random() < 0.5
+    if old_index:
+        for i, pth in enumerate(paths):
+            if i == 0 or rng.random() < 0.5:
+                indexlib.strip_tbi_counts(pth)
+                stripped.append(i)
     order = list(range(len(paths)))
     rng.shuffle(order)
     paths = [paths[i] for i in order]
@@ -83,7 +93,7 @@ def attempt(ctx, spec, pieces, work, tag, label, must_reject, target=None):
     shutil.rmtree(out, ignore_errors=True)
     target = target or rng.choice([len(paths), 2 * len(paths), 8])
     inp = {"vcf_spec": spec, "pieces": [[(r["contig"], r["pos"]) for r in recs] for recs in pieces], "file_order": order,
-           "target_partitions": target, "class": label}
+           "target_partitions": target, "class": label, "files_with_old_style_index": stripped}
     ctx.case((tag, label, target, repr(inp["pieces"])[:1500]), must_reject)
     ctx.count(label)
     parts_for_model = None
@@ -159,10 +169,12 @@ def cut_classes(ctx, work, k):
     a, b = m // 3, 2 * m // 3
     tag = f"c{k}"
     attempt(ctx, spec, [c0[:a], c0[a:b], c0[b:] + rest], work, tag + "d", "disjoint", False)
-    attempt(ctx, spec, [c0[:b], c0[a:] + rest], work, tag + "o", "overlapping", True)
-    attempt(ctx, spec, [c0[:a + 1], c0[a:] + rest], work, tag + "t", "touching (shared position)", True)
-    attempt(ctx, spec, [c0 + rest, c0[a:b]], work, tag + "n", "nested", True)
-    attempt(ctx, spec, [c0[:b], c0[:b]], work, tag + "i", "identical ranges", True)
+    for oi in (False, True):
+        sfx = "O" if oi else ""
+        attempt(ctx, spec, [c0[:b], c0[a:] + rest], work, tag + "o" + sfx, "overlapping", True, old_index=oi)
+        attempt(ctx, spec, [c0[:a + 1], c0[a:] + rest], work, tag + "t" + sfx, "touching (shared position)", True, old_index=oi)
+        attempt(ctx, spec, [c0 + rest, c0[a:b]], work, tag + "n" + sfx, "nested", True, old_index=oi)
+        attempt(ctx, spec, [c0[:b], c0[:b]], work, tag + "i" + sfx, "identical ranges", True, old_index=oi)
     for target in ((2, 4, 8, 16) if ctx.thorough else (2, 8)):
         attempt(ctx, spec, [c0[:a] + c0[b:] + rest, c0[a:b]], work, tag + f"x{target}", "interleaved", True, target=target)
 
